@@ -41,6 +41,15 @@ class QuantTreePart(Part):
 
     # ------------------------------------------------------------------ generation: short histories, whole coin tree
     def tree_history(self, rng, budget):
+        """retry a few times until the intended merge actually fitted into the leaf budget"""
+        h = None
+        for _ in range(8):
+            h, want_merge = self.tree_history_once(rng, budget)
+            if not want_merge or " merge " in h[1]:
+                break
+        return h
+
+    def tree_history_once(self, rng, budget):
         tname = rng.choice(["i64", "i64", "f64"])
         codec = Q.CODECS[tname]
         sh = Q.Shapes(codec)
@@ -88,14 +97,14 @@ class QuantTreePart(Part):
 
         def est_fill(i, extra_max):
             k = sh.kn[i][0]
-            return fill(i, 2 * k * rng.choice([1, 1, 2, 3]) + rng.randrange(0, extra_max + 1))
+            return fill(i, 2 * k * rng.choice([1, 1, 2, 3] if k <= 4 else [1, 1, 1, 2]) + rng.randrange(0, extra_max + 1))
 
         if scenario == "single":
             while fill(0, 1) and len(ops) < 80:
                 pass
         elif scenario in ("equal", "down", "up"):
-            for i in live:
-                est_fill(i, 2 * ks[i] - 1)
+            for i in sorted(live, key=lambda i: -ks[i]):
+                est_fill(i, rng.choice([0, 1, 2 * ks[i] - 1]))
             attempt("merge 0 1 %s" % rng.choice("lr"))
             if len(live) > 2:
                 attempt("merge 0 2 %s" % rng.choice("lr"))
@@ -137,7 +146,7 @@ class QuantTreePart(Part):
                         live.append(nxt)
                         nxt += 1
         target = 0 if scenario != "mixed" else rng.choice(live)
-        return ["T " + tname, "tree %d ; %s" % (target, " ; ".join(ops))]
+        return ["T " + tname, "tree %d ; %s" % (target, " ; ".join(ops))], scenario not in ("single", "mixed")
 
     def generate(self, rng, tier):
         hs = []
